@@ -13,10 +13,7 @@ CONSTANTS LgK, Prefix, Alphabet, Depth
 VARIABLES s4, s8, hist
 vars == <<s4, s8, hist>>
 
-Apply(st, cs) == IF st.mode = "arr" THEN UpdateAll(st, cs)
-                 ELSE LET RECURSIVE F(_, _)
-                          F(x, r) == IF r = <<>> THEN x ELSE F(Update(x, Head(r)), Tail(r))
-                      IN F(st, cs)
+Apply(st, cs) == FoldLeft(LAMBDA acc, c : Update(acc, c), st, cs)
 
 GInit == /\ s4 = Apply(NewSketch(LgK, 4), Prefix)
          /\ s8 = Apply(NewSketch(LgK, 8), Prefix)
